@@ -1,6 +1,9 @@
 (* Transcription of github.com/sahilm/fuzzy v0.1.1 FindFromNoSort for ASCII patterns and targets (bytes < 128: one rune per
    byte, case folding and letter classes are the ASCII ones). Executable definitions only.
-   [score_target] returns FPanic where the Go code indexes runes[patternIndex] out of range. *)
+   [score_target] returns FPanic where the Go code indexes runes[patternIndex] out of range.
+   Integers are unbounded here. In Go they are 64-bit and the adjacency bonus triples with every consecutive matched rune,
+   so the library's arithmetic wraps after 39 consecutive matches; the model is compared with the library (and claimed to
+   describe it) for patterns of at most 38 runes only. *)
 From Coq Require Import List NArith ZArith Bool.
 From WTF Require Import Model.Validate Model.Text.
 Import ListNotations.
